@@ -33,10 +33,9 @@ def stretched_gates(gates, *, suffix=None, update=False):
         else:
             add_idle = False
 
-        if suffix:
-            new_name = gate.name + suffix
-        else:
-            new_name = None
+        if suffix is None:
+            suffix = ""
+        new_name = gate.name + suffix
 
         parameters = gate.parameters.copy()
         parameters.append(Parameter("stretch", ParamType.FLOAT))
